@@ -77,11 +77,15 @@ def run(job):
         res["calls"] = []
         try:
             l = LinearIR.Linker(); l.AddModule(r.IRModule); prog = l.Link()
-            vm = VM.VirtualMachine(prog)
+            vms = {0: VM.VirtualMachine(prog)}
         except BaseException as e:
             res["link_error"] = classify_exc(e); return res
         for c in job["calls"]:
             try:
+                k = c.get("vm", 0)
+                if k not in vms:
+                    vms[k] = VM.VirtualMachine(prog)       # another VM of the same linked program
+                vm = vms[k]
                 signal.setitimer(signal.ITIMER_REAL, float(job.get("call_timeout", 3.0)))
                 with contextlib.redirect_stdout(out):
                     for g, v in c.get("globals", {}).items():
